@@ -123,6 +123,7 @@ type Sched struct {
 	timer     *time.Timer
 
 	options     []int
+	probedSpin  bool
 	lastStepped *Thread // the thread that made progress most recently
 	progressSeq int     // number of events applied so far
 }
@@ -291,6 +292,9 @@ func (s *Sched) apply(e event) {
 	s.lastStepped = e.t
 	s.progressSeq++
 	e.t.ownEvents++
+	if e.kind != evYield || !e.t.spin {
+		s.probedSpin = false
+	}
 	switch e.kind {
 	case evYield:
 		e.t.state = stParked
@@ -384,7 +388,15 @@ func (s *Sched) Run() Result {
 				continue
 			}
 		}
-		if len(runnable) == 0 || (!nonSpin && spinOnly > 2000) {
+		if len(runnable) == 0 && spinWaiting > 0 && detached == 0 && !s.probedSpin {
+			// Only busy-waiters are left. Before calling it a livelock let each of them look
+			// once more: a hook named ":spin" that does not sit in a loop any more (after a
+			// refactoring) must not be mistaken for one.
+			s.probedSpin = true
+			s.progressSeq++
+			continue
+		}
+		if len(runnable) == 0 {
 			if detached > 0 {
 				// wait for an externally blocked thread to come back
 				if !s.waitEvent(s.Grace) {
